@@ -92,7 +92,8 @@ def mkEnv (st : DSt) : Env Nat :=
       | some 'r' => .refuse
       | some 'x' => .raise
       | _ => if (inSet st.advSet n v) != (c % 2 == 1) then .approve else .refuse
-    rnd := fun _ _ v => if v < 100 then some v else none }
+    -- the pinned random pass: int -> same int; code 104 (True) -> 1; code 105 (1.0) -> 1.0; others not numeric
+    rnd := fun _ _ v => if v < 100 then some v else if v = 104 then some 1 else if v = 105 then some 105 else none }
 
 def classOf (seen : List (List (Nat × Nat))) (c : List (Nat × Nat)) : List (List (Nat × Nat)) × Nat :=
   match seen.findIdx? (· == c) with
